@@ -658,6 +658,31 @@ def run_c16(rng, tier, verdict, counters, samples, seed):
         verdict.violation(dict(broken='constant tie: badDataMaxBatchSize', code=mcap.group(1) if mcap else None, model=capout[:1]),
                           'channel capacity of the model differs from the code (or cannot be read)', no_input=True)
     extra['channel_capacity'] = int(capout[0]) if capout else None
+    # ---- writer / reader lockstep of RecordCount (the ids of C16 ARE these counters): histories under small
+    # frame and dictionary limits and every restart flag, through the generated writer and reader
+    try:
+        import streamlib
+        okw, logw, gow, schw, sjw = streamlib.build_otel()
+        if okw:
+            hw = streamlib.Harness('otel', schw, gow, sjw)
+            lcases = []
+            for i in range(16 if tier == 'quick' else 120):
+                root = 'Metrics' if i % 2 == 0 else 'Spans'
+                opts = dict(compression=rng.below(2), maxframe=rng.choice([1, 64, 300, 2000]), maxdict=rng.choice([0, 0, 64, 2000]),
+                            flags=rng.choice([0, 0, 1, 4, 2]), descriptor=False, userdata={})
+                lcases.append(dict(id=f'lockstep-{i}', root=root, opts=opts, ops=streamlib.gen_history(schw, root, rng, 3 + rng.below(25))))
+            louts, _, _ = hw.run_go(lcases)
+            for lc, lo in zip(lcases, louts):
+                nw = sum(1 for op in lc['ops'] if op['op'] == 'w')
+                nr = len((lo.get('read') or {}).get('recs') or [])
+                if lo.get('panic') or lo.get('wcount') != nw or nr != nw:
+                    counters['oracle:record-count-lockstep'] += 1
+                    verdict.violation(dict(case=lc, writes=nw, writer_record_count=lo.get('wcount'), records_read=nr, panic=lo.get('panic'), frames=lo.get('frames')),
+                                      f'C16 {lc["id"]}: {nw} records written, writer RecordCount()={lo.get("wcount")}, reader delivered {nr}')
+                else:
+                    counters['clean_lockstep'] += 1
+    except Exception as ex:      # the sub-check must not hide the rest
+        verdict.violation(dict(broken='C16 record-count lockstep sub-check could not run', error=repr(ex)), 'C16 lockstep sub-check failed to run', no_input=True)
     cases = gen_c16(rng, tier)
     # corpus: the schedule of the repaired defect D10 runs first, repeated (the branch is chosen by the Go runtime)
     corpus = json.load(open(os.path.join(vlib.VERIF, 'corpus', 'C16', 'd10.json')))
